@@ -1,17 +1,20 @@
 package props
 
 import (
+	"encoding/base64"
 	"net/http"
 
 	"verifharness/verif"
 	"verifharness/world"
 
 	"github.com/volatiletech/authboss/v3"
+	"github.com/volatiletech/authboss/v3/remember"
 )
 
 func init() {
 	register("C10_Logout", C10_Logout)
 	register("C10_InvalidMethod", C10_InvalidMethod)
+	register("C10_LogoutBehindRemember", C10_LogoutBehindRemember)
 }
 
 // C10_Logout: the logout handler under each configured method, from an arbitrary session over
@@ -81,4 +84,29 @@ func C10_InvalidMethod() {
 	err := w.AB.Init("logout")
 	verif.Assert(err != nil, "Init rejects an invalid logout method")
 	verif.Assert(len(w.Router.Order) == 0, "no route is registered for an invalid logout method")
+}
+
+// C10_LogoutBehindRemember: the usual stack — remember.Middleware in front of the logout route —
+// with an arbitrary session and an arbitrary or genuine remember cookie: after the response the
+// browser holds no session value and no remember cookie.
+func C10_LogoutBehindRemember() {
+	verif.ReplayInInterpreter()
+	f := newFlow(fullOpts())
+	if verif.Choice("cookie", 2) == 1 {
+		f.w.Cookies.Set(authboss.CookieRemember, base64.URLEncoding.EncodeToString([]byte(f.a[0].rmRaw[0])))
+	}
+	f.preS, f.preC = f.w.Session.Snapshot(), f.w.Cookies.Snapshot()
+	h := remember.Middleware(f.w.AB)(f.w.Route("DELETE /logout"))
+	_, panicked := f.serveHandler(h, "DELETE", "/logout")
+	if panicked || len(f.w.ErrH.Errs) > 0 {
+		return
+	}
+	verif.Reach("logout-completed")
+	for _, k := range sessionKeys {
+		if k != authboss.FlashSuccessKey {
+			verif.Assert(!f.w.Session.Has(k), "after logout behind the remember middleware the session holds no value")
+		}
+	}
+	verif.Assert(!f.w.Cookies.Has(authboss.CookieRemember), "after logout behind the remember middleware no remember cookie is left")
+	_ = http.StatusOK
 }
